@@ -6,6 +6,7 @@ import (
 	"reflect"
 	"sort"
 	"sync"
+	"time"
 
 	"github.com/junioryono/godi/v4"
 )
@@ -167,6 +168,9 @@ func (r *Runner) CreateScope(parent int, ctxKind int) (*ScopeRec, *Obs) {
 	case 3:
 		rec.CtxKey, rec.CtxVal = ctxKeyT{tag}, fmt.Sprintf("val-%d", tag)
 		ctx, rec.Cancel = context.WithCancel(context.WithValue(context.Background(), rec.CtxKey, rec.CtxVal))
+	case 5:
+		// a context with a (far away) deadline
+		ctx, rec.Cancel = context.WithDeadline(context.Background(), time.Now().Add(time.Hour))
 	case 4:
 		// a context derived from the parent scope's own context, with its own cancel
 		base := context.Background()
